@@ -244,6 +244,7 @@ type migMod struct {
 	Version   string // v1 | v1beta1
 	Name      string
 	NoBufYAML bool
+	Deps      []string // declared deps as written in buf.yaml (names of sibling modules and of external modules)
 	Roots     []string // explicit v1beta1 roots (nil = none written)
 	Excludes  []string // as written in buf.yaml (module-dir relative)
 	Lint      migCheckCfg
@@ -332,6 +333,11 @@ var migRootPairs = [][]string{{"proto", "src"}, {"idl/main", "idl/extra"}, {"a",
 var migRootSingles = []string{"proto", "src", "idl/main", "."}
 var migScalar = []string{"string", "int32", "int64", "bool", "bytes", "uint32", "double"}
 
+// external modules a buf.yaml may declare (never imported, no buf.lock: declared-only deps) and the
+// single ref each of them may carry.
+var migExternalDeps = []string{"buf.build/googleapis/googleapis", "buf.build/acme/extapis", "bsr.example.com/other/ext"}
+var migExternalRefs = []string{"", "v1.2.0", "main"}
+
 func migGenWS(t *rapid.T) *migWS {
 	ws := &migWS{}
 	switch k := migRange(t, "layout", 0, 99); {
@@ -375,6 +381,45 @@ func migGenWS(t *rapid.T) *migWS {
 			}
 		}
 		ws.Modules = append(ws.Modules, m)
+	}
+	// declared dependencies: on named sibling modules of the workspace (in either directory order;
+	// the migrated workspace must not list those) and on external modules (kept; a name that is
+	// declared both bare and with a ref keeps the ref; never two different refs for one name, which
+	// would need the registry to resolve)
+	// (a v1 workspace rejects two spellings of one module among all its deps, so each name gets one
+	// spelling per workspace)
+	spelling := map[string]string{}
+	for _, o := range ws.Modules {
+		if o.Name != "" {
+			spelling[o.Name] = o.Name
+			if migChance(t, "sibdepref", 15) {
+				spelling[o.Name] = o.Name + ":main"
+			}
+		}
+	}
+	for k, ext := range migExternalDeps {
+		spelling[ext] = ext
+		if migExternalRefs[k] != "" && migChance(t, "extdepref", 50) {
+			spelling[ext] = ext + ":" + migExternalRefs[k]
+		}
+	}
+	for i, m := range ws.Modules {
+		if m.NoBufYAML {
+			continue
+		}
+		for j, o := range ws.Modules {
+			if j != i && o.Name != "" && migChance(t, "sibdep", 40) {
+				m.Deps = append(m.Deps, spelling[o.Name])
+			}
+		}
+		for _, ext := range migExternalDeps {
+			if migChance(t, "extdep", 22) {
+				m.Deps = append(m.Deps, spelling[ext])
+			}
+		}
+		if len(m.Deps) > 1 && migChance(t, "depsperm", 50) {
+			m.Deps = rapid.Permutation(m.Deps).Draw(t, "depsorder")
+		}
 	}
 	ws.InputMod = migUniform(t, "inputmod", nMods)
 	// files
@@ -887,6 +932,7 @@ func (m *migMod) renderBufYAML() string {
 	if m.Name != "" {
 		fmt.Fprintf(&b, "name: %s\n", m.Name)
 	}
+	migYAMLList(&b, "", "deps", m.Deps)
 	if len(m.Roots) > 0 || len(m.Excludes) > 0 {
 		b.WriteString("build:\n")
 		migYAMLList(&b, "  ", "roots", m.Roots)
